@@ -57,7 +57,7 @@ Definition json_layout (w : Z) (e : event) : bytes :=
 Definition text_header (w : Z) (e : event) : bytes :=
   [91] ++ map to_upper (ev_level e) ++ [93; 91] ++ time_str (ev_time e) ++ [93; 91] ++
   get_file_line w (ev_file e) (ev_line e) ++ [93; 32] ++ ev_tag e ++ sep2 ++
-  (if is_nil (ev_ctx_string e) then [] else ev_ctx_string e ++ sep2).
+  (if is_nil (ev_ctx_string e) then [] else escape (ev_ctx_string e) ++ sep2).   (* escaped like every other caller-supplied text *)
 
 Definition text_layout (w : Z) (e : event) : bytes :=
   let '(o1, h1) := tfields false (ev_ctx_fields e) in
